@@ -979,7 +979,9 @@ class SamplingMethod(DirectMethod):
                     # Error message is usually "... arbitrary expression ..." but can also be
                     # "... You cannot set an initial value for a parameter ..."
                     # if the dynamics contains a parameter
-                    if "arbitrary expression" in str(e) or (not target.is_valid_input() and "initial value for a parameter" in str(e)):
+                    # or "... Initialization failed since variables ... are free ..." if the target is a
+                    # linear expression containing a Function call
+                    if "arbitrary expression" in str(e) or (not target.is_valid_input() and ("initial value for a parameter" in str(e) or "are free" in str(e))):
                         pass
                     else:
                         # Other type of error: 
